@@ -2,6 +2,7 @@ package rules
 
 import (
 	"fmt"
+	"go/token"
 	"go/types"
 	"strings"
 
@@ -22,7 +23,7 @@ func init() {
 			"(e) every send on runCh/cancelCh happens with stateLock held after reading finalised == false in the same critical section, every close with stateLock held after finalised is set; " +
 			"(f) in runJob a nil return implies that active was set and the run signal was sent, and no return leaves active set without the signal having been sent; " +
 			"(g) lock pairing in the package; (h) on every exit path of a closure the job is finalised exactly once and its name is removed exactly once counting the claimer (CancelJob/RunJob remove it themselves, so the cancel/run arms must not). " +
-			"Added with the fourth seeding round: (k) the loops of CancelJobs are only left by exhaustion. NOT decided: the interleavings (two RunJobs at once, cancel versus timer at the same instant), timing, liveness of time.After.",
+			"Added with the fourth seeding round: (k) the loops of CancelJobs are only left by exhaustion. Added with the sixth seeding round and the false-alarm regression: (l) outside its select the job goroutine waits on the run channel only; (d, extended) an entry point that hands the request to another claimer claims through it. NOT decided: the interleavings (two RunJobs at once, cancel versus timer at the same instant), timing, liveness of time.After.",
 		Technique: "SSA select-arm analysis with min/max path counting of job invocations, finalisations and name removals; lock-set dataflow for the send/close discipline; guard/edge-deletion queries; who-may-call on the job function value",
 		Rule:      "one obligation per select arm and quantity (b,c,h), per send/close site (e), per return of runJob (f), per claimer (d), per function with lock operations (g)",
 	})
@@ -156,6 +157,16 @@ func runC02(p *core.Prog, r *core.Report, tier string) {
 			}
 			nClosures++
 			base := core.FnKey(cl)
+			// (l) the only thing the job goroutine waits for outside its select is the run signal it was promised: a plain
+			// receive from any other channel (the cancel channel, which nobody signals once the job is claimed) hangs
+			core.EachInstr(cl, func(in ssa.Instruction) {
+				u, ok := in.(*ssa.UnOp)
+				if !ok || u.Op != token.ARROW {
+					return
+				}
+				d := ds.D(u.X)
+				r.Check(d.Kind == "field" && d.Name == "runCh", "C02.l", fmt.Sprintf("%s|plain-receive|%s", base, d.String()), p.Pos(u.Pos()), "a receive outside the select takes the run signal", "outside its select the job goroutine waits on "+d.String()+", not on the run channel: a claimed job's run signal is never taken (the request was reported as accepted, the job never runs) and the goroutine waits for ever")
+			})
 			selBlock := sel.Block()
 			stopAtSelect := func(b *ssa.BasicBlock) bool { return periodic && b == selBlock }
 			// the loop header of the periodic closure: paths that come back to the select's block (via the runtime call) count as "returned to the loop"
